@@ -19,6 +19,7 @@ Decoded(e, pmt) ==
        (IF \E i \in 1..Len(e.streams) : e.streams[i].type # pmt.streams[i].type \/ e.streams[i].pid # pmt.streams[i].pid
         THEN "stream-type-or-pid" ELSE "stream-descriptors")
   ELSE IF e.pids # PidList(pmt) THEN "pid-list"
+  ELSE IF \E i \in 1..Len(e.exists) : e.exists[i][2] # (IF InSeq(e.exists[i][1], PidList(pmt)) THEN 1 ELSE 0) THEN "pid-exists"
   ELSE IF e.version # pmt.version THEN "version-number"
   ELSE IF e.cni # pmt.cni THEN "current-next-indicator"
   ELSE ""
